@@ -1434,7 +1434,11 @@ class Interp:
         if decl in ('std::result::Result::<T, E>::unwrap', 'std::result::Result::<T, E>::expect',
                     'std::option::Option::<T>::unwrap', 'std::option::Option::<T>::expect'):
             if is_agg(a0, None, 'Ok') or is_agg(a0, None, 'Some'):
-                return agg_field(a0, '0')
+                pay = agg_field(a0, '0')
+                if is_agg(a0, None, 'Ok') and pay[0] == 'ret' and self.assume_ok:
+                    # Ok only by the success assumption: the failing alternative of that call would panic here
+                    st.eff.append(('maypanic', decl, a0, site, fr.fn['def']))
+                return pay
             if is_agg(a0, None, 'Err') or is_agg(a0, None, 'None'):
                 st.eff.append(('panic', decl, site, fr.fn['def'], ()))
                 self.finish(st, 'panic', finished)
@@ -1487,7 +1491,7 @@ class Interp:
         if decl == 'std::iter::IntoIterator::into_iter':
             if rdef == '<I as std::iter::IntoIterator>::into_iter':
                 return a0
-            if a0[0] in ('iter', 'map', 'zip', 'windows', 'clonediter', 'into_iter', 'enumerate'):
+            if a0[0] in ('iter', 'map', 'zip', 'windows', 'clonediter', 'into_iter', 'enumerate', 'skip'):
                 return a0
             if is_agg(a0) and a0[1].startswith('std::ops::Range'):
                 return a0
@@ -1505,6 +1509,8 @@ class Interp:
             return ('zip', a0, b)
         if decl == 'std::iter::Iterator::enumerate':
             return ('enumerate', a0)
+        if decl == 'std::iter::Iterator::skip' and not self.local_body(t):
+            return ('skip', a0, args[1])
         if decl == 'core::slice::<impl [T]>::windows':
             return ('windows', self.coll_of(st, a0), args[1])
         if decl == 'std::clone::Clone::clone' and not self.local_body(t):
